@@ -181,11 +181,41 @@ def r3(ctx: Context, prs, sites) -> None:
     rev = any(k.arg == "reverse" and isinstance(k.value, ast.Constant) and k.value.value for c in mem_sort for k in c.keywords)
     ok = bool(ob) and ob[0] == ("creation_timestamp", "ASC") and "creation_time" in mk and not rev
     ctx.add("R3", "active-runners::ordered-by-creation-ascending", ok, a.loc(), "" if ok else f"mem sort key {mk} reverse={rev}; sqlite ORDER BY {ob}")
+    # the order is the slot assignment: it may depend only on things that never change for a runner (creation time, id);
+    # a key that moves with every heartbeat reorders runners that tie on creation time - each one sees ITSELF last
+    immutable = {"creation_timestamp", "creation_time", "runner_id"}
+    sq_keys = [c_.split(".")[-1] for c_, _ in ob]
+    mem_keys = {x.attr for x in ast.walk(mem_sort[0].keywords[0].value) if isinstance(x, ast.Attribute)} if mem_sort and mem_sort[0].keywords else set()
+    ok = bool(sq_keys) and set(sq_keys) <= immutable and mem_keys <= immutable
+    ctx.add("R3", "active-runners::order-uses-immutable-keys-only", ok, s.loc(), "" if ok else f"sort keys sqlite={sq_keys} mem={sorted(mem_keys)}: a key outside {sorted(immutable)} changes while the runner lives, so runners with equal creation time swap positions between two reads of the list (every one of them is placed last right after its own heartbeat) and are authorised for the same slot")
     # eligibility filter
     p_el = a.params[2] if len(a.params) > 2 else "can_run_atomic_service"
     mem_filter = any(isinstance(n, ast.If) and any(isinstance(x, ast.Continue) for x in n.body) and any(isinstance(c_, ast.Compare) and isinstance(c_.ops[0], ast.NotEq) and p_el in names_in(c_) for c_ in ast.walk(n.test)) and any(isinstance(c_, ast.Compare) and isinstance(c_.ops[0], ast.IsNot) and p_el in names_in(c_) for c_ in ast.walk(n.test)) for n in walk_no_nested(a.node))
     ok = mem_filter and ss and "? IS NULL OR allow_to_run_atomic_service = ?" in " ".join(ss[0].template.split())
     ctx.add("R3", "active-runners::eligibility-filter", bool(ok), a.loc(), "" if ok else "the optional can_run_atomic_service filter differs")
+    # --- a requested maximum of 0 ("no free slot"): SQL `LIMIT 0` returns nothing; an in-memory loop that tests `== 0` only
+    # after counting an element down never stops for 0 (or a negative number) and returns everything
+    bc_mem, bc_sql = ctx.repo.cls("MemBlockingControl"), ctx.repo.cls("SQLiteBlockingControl")
+    gm, gs = bc_mem.methods.get("get_blocking_invocations"), bc_sql.methods.get("get_blocking_invocations")
+    if gm is None or gs is None:
+        raise AnalysisError("anchor-vanished: get_blocking_invocations (mem / sqlite)")
+    from ..flow import conditions_at, func_cfg, parent_map
+
+    lim = gm.params[1]
+    sql_limit_bound = any(x.func is gs and "LIMIT ?" in " ".join(x.template.upper().split()) for x in sites)
+    gcf, gpm = func_cfg(ctx.repo, gm), parent_map(gm.node)
+    ylds = [n for n in walk_no_nested(gm.node) if isinstance(n, (ast.Yield, ast.YieldFrom))]
+
+    def positive_quota(conds) -> bool:
+        for c_ in conds:
+            if isinstance(c_, ast.Compare) and len(c_.ops) == 1 and lim in names_in(c_):
+                t_ = ast.unparse(c_).replace(" ", "")
+                if t_ in (f"{lim}>0", f"0<{lim}", f"{lim}>=1", f"1<={lim}"):
+                    return True
+        return False
+
+    okz = sql_limit_bound and bool(ylds) and all(positive_quota(conditions_at(gcf, gm.node, y, gpm)) for y in ylds)
+    ctx.add("R3", "blocking-limit::zero-means-none-on-both-backends", okz, gm.loc(), "" if okz else f"SQLite binds the requested maximum to LIMIT ? (0 rows for 0); the in-memory generator yields without `{lim} > 0` holding: with a maximum of 0 (a runner without a free slot) it hands out EVERY ready invocation - the runner claims work it has no slot for, the SQLite runner does not")
     # --- auto purge threshold
     a, s = by[("BaseOrchestrator", "auto_purge")]
     mem_op = None
